@@ -283,12 +283,27 @@ func c07ReadFaultsLarge(c *Ctx) {
 				}
 				offs[len(x)] = true
 				offs[len(x)-1] = true
+				// around every line terminator (evenly thinned to 1500 of them): a decoder that knows how long a line
+				// must be, or reads a line in one request, meets the fault exactly at its end
+				var nls []int
+				for p, b := range x {
+					if b == '\n' {
+						nls = append(nls, p)
+					}
+				}
+				step := 1 + len(nls)/1500
+				for j := 0; j < len(nls); j += step {
+					for d := -1; d <= 2; d++ {
+						offs[nls[j]+d] = true
+					}
+				}
+				k.Count("line_end_fault_offsets_large", int64(len(nls)/step))
 				for kk := range offs {
 					if kk < 0 || kk > len(x) {
 						continue
 					}
-					for _, m := range faultModes[:4] {
-						if m.bytewise && kk > 20000 {
+					for _, m := range faultModes {
+						if m.bytewise && (kk > 20000 || m.forever) {
 							continue
 						}
 						if !faultRun(k, cd, x, ref, kk, m) {
